@@ -210,6 +210,11 @@ def h_poly_vector(sx, cfg):
                 want = want + P[c].d2(a)
             for idx in np.ndindex(*n):
                 sx.check(f"laplace{idx}[{c}]", sx.eq(r.array[idx + (c,)], want))
+        if perm is not None:
+            # the result's own mapping pairs each axis with the Laplacian of the operand's component along that axis
+            cba = _comp_by_axis(r, dims)
+            inv = {perm[c]: c for c in range(nv)}
+            sx.check("laplace-mapping-follows-operand", all(cba[a] == inv[a] for a in range(nd)), got=str(dict(r.vdim_mapping)))
 
 
 def h_identity(sx, cfg):
@@ -251,7 +256,11 @@ def h_rotate(sx, cfg):
         f = df.Field(mesh, nvdim=1, value=vals)
     else:
         vals = sx.real_array("v", (*n, nd))
-        f = df.Field(mesh, nvdim=nd, value=vals)
+        if cfg.get("perm"):
+            labels, perm, mapping = _vec_setup(sx, dict(cfg, labels="custom"), nd, nd, dims)
+            f = df.Field(mesh, nvdim=nd, value=vals, vdims=labels, vdim_mapping=mapping)
+        else:
+            f = df.Field(mesh, nvdim=nd, value=vals)
     op = {"grad": lambda x: x.grad, "laplace_s": lambda x: x.laplace, "laplace_v": lambda x: x.laplace, "div": lambda x: x.div, "curl": lambda x: x.curl}[what]
     lhs = op(f.rotate90(dims[a], dims[b], k=k))
     rhs = op(f).rotate90(dims[a], dims[b], k=k)
@@ -336,5 +345,9 @@ def tasks(tier):
             for k in ks:
                 rot.append(dict(harness="h_rotate", cfg=dict(n=list(n), what=what, ax1=a, ax2=b, k=k if not q else 1 + (pi % 3)), limits=big))
     t += rot
+    # the same with a component-to-axis mapping that is not the positional one
+    for what, n, perm, (a, b), k in [("laplace_v", (3, 2), [1, 0], (0, 1), 1), ("div", (2, 3), [1, 0], (1, 0), 1), ("laplace_v", (2, 2, 3), [1, 2, 0], (0, 2), 3), ("curl", (2, 3, 2), [2, 0, 1], (1, 2), 1)] + (
+            [] if q else [("laplace_v", (3, 2, 2), [0, 2, 1], (0, 1), 2), ("div", (2, 2, 3), [2, 1, 0], (2, 0), 1), ("curl", (2, 2, 3), [1, 0, 2], (0, 1), 3)]):
+        t.append(dict(harness="h_rotate", cfg=dict(n=list(n), what=what, ax1=a, ax2=b, k=k, perm=perm), limits=big))
     t.append(dict(harness="h_refuse", cfg={}))
     return t
